@@ -415,6 +415,20 @@ func (self *visitorUserNode) OnFloat64(v float64, n json.Number) error {
 		if err = self.p.WriteInt64(convertData); err != nil {
 			return err
 		}
+	case proto.Uint64Kind, proto.Fixed64Kind:
+		// an integer beyond int64 is reported by the parser as a float: take the exact value from its text
+		convertData, e := strconv.ParseUint(string(n), 10, 64)
+		if e != nil {
+			return newError(meta.ErrDismatchType, "param isn't uint64Type", e)
+		}
+		if fieldDesc.Kind() == proto.Uint64Kind {
+			err = self.p.WriteUint64(convertData)
+		} else {
+			err = self.p.WriteFixed64(convertData)
+		}
+		if err != nil {
+			return err
+		}
 	default:
 		return newError(meta.ErrDismatchType, "param isn't floatType", nil)
 	}
